@@ -375,7 +375,13 @@ pub fn membership_invariants(m: &AutosarModel) -> Vec<Problem> {
                     Err(e) => out.push(p("C10", "text|file-does-not-load-on-its-own", format!("{}: {e}", f.filename().display()))),
                     Ok(_) => {
                         let shape = |v: &[(usize, Element)]| -> Vec<(usize, String, Option<String>)> {
-                            v.iter().map(|(d, e)| (*d, e.element_name().to_string(), e.character_data().map(|c| c.to_string()))).collect()
+                            // all text of the element, concatenated: adjacent text items of mixed content are one run in the file
+                            v.iter()
+                                .map(|(d, e)| {
+                                    let texts: Vec<String> = e.content().filter_map(|c| if let ElementContent::CharacterData(c) = c { Some(c.to_string()) } else { None }).collect();
+                                    (*d, e.element_name().to_string(), if texts.is_empty() { None } else { Some(texts.concat()) })
+                                })
+                                .collect()
                         };
                         let alone: Vec<(usize, Element)> = walk(&m2);
                         if shape(&alone) != shape(&expect_view) {
